@@ -45,7 +45,7 @@ class BufArena:
             self.pyobj = f.buffer(self.root, len(init))     # a Python-level buffer over the cdata
         else:
             raise ValueError(backing)
-        self.bufs, self.bufdesc, self.fbs, self.fbdesc = [], [], [], []
+        self.bufs, self.bufdesc, self.fbs, self.fbdesc, self.fbobjlen = [], [], [], [], []
         self.cnt = 0
 
     def snap(self):
@@ -69,7 +69,14 @@ class BufArena:
         return mv[off:] if length is None else mv[off:off + length]
 
     def apply(self, op):
+        """Returns the observed event, or None when the operation is not executed because it would
+        touch bytes outside the object (only possible after from_buffer reported a wrong length; that
+        event itself carries the evidence)."""
         f = self.ffi
+        if op["op"] in ("fbget", "fbset"):
+            isz = mc.KINDS[self.fbdesc[op["b"] - 1]].sz
+            if op["i"] < 0 or (op["i"] + 1) * isz > self.fbobjlen[op["b"] - 1]:
+                return None
         ev = {"op": op["op"], "b": op.get("b", 0), "i": op.get("i", 0), "j": op.get("j", 0), "n": op.get("n", 0),
               "key": op.get("key", NOKEY), "val": list(op.get("val", [])), "st": "ok", "out": [], "num": 0,
               "lo": 0, "chg": []}
@@ -145,6 +152,7 @@ class BufArena:
         if new_fb is not None:
             self.fbs.append(new_fb)
             self.fbdesc.append(FB_TYPES[ev["n"]])
+            self.fbobjlen.append(ev["j"])
         after = self.snap()
         if after != before:
             lo = next(k for k in range(self.n) if after[k] != before[k])
@@ -159,3 +167,20 @@ class BufArena:
             if bytes(b) != s[off:off + n] or len(b) != n:
                 return False
         return True
+
+
+def make_arena(backing, init, traces, metas):
+    """BufArena, or None if the arena itself could not be built because ffi.from_buffer('char[]', obj)
+    failed: then a one-event trace recording that failure is appended (TLC judges it)."""
+    try:
+        return BufArena(backing, init)
+    except core.MachineryError:
+        raise
+    except Exception as e:
+        if backing == "cdata":
+            raise
+        traces.append({"mem": list(init), "backing": backing, "ev": [
+            {"op": "frombuf", "b": 0, "i": 0, "j": len(init), "n": 1, "key": NOKEY, "val": [], "st": type(e).__name__,
+             "out": [], "num": 0, "lo": 0, "chg": [], "msg": str(e)[:100]}]})
+        metas.append({"kind": "setup", "backing": backing})
+        return None
